@@ -194,6 +194,18 @@ def _replay(con, z3model):
     return out
 
 
+def _goal_text(goal, limit, simplify=False):
+    """Text of a goal for the evidence.  z3's Python pretty printer takes seconds on goals with deeply shared if-then-else index terms
+    (C04 mask cropping: 1.5 s per goal); those are printed by the C-side s-expression printer instead."""
+    try:
+        sx = goal.sexpr()
+    except Exception:
+        sx = ""
+    if len(sx) > 1500 or "(let (" in sx:   # shared sub-terms: the Python printer would expand them
+        return " ".join(sx.split())[:limit]
+    return str(z3.simplify(goal) if simplify else goal)[:limit]
+
+
 def _verify_one(args):
     idx, tier = args
     t0 = time.time()
@@ -232,12 +244,12 @@ def _verify_one(args):
             if r["status"] != "proved":
                 rec["model"] = r.get("model")
                 rec["reason"] = r.get("reason")
-                rec["goal"] = str(ob.goal)[:600]
+                rec["goal"] = _goal_text(ob.goal, 600)
                 rec["meta"] = {k: str(v)[:300] for k, v in ob.meta.items()}
                 rec["smt2"] = to_smt2(ob.hyps, ob.goal)[:20000]
             if r["status"] != "proved" and (con.rt is not None):
                 rec["replay"] = _replay(con, r.get("z3model"))
-            rec["sample"] = (str(z3.simplify(ob.goal))[:300])
+            rec["sample"] = _goal_text(ob.goal, 300, simplify=True)
             rec["n_hyps"] = len(ob.hyps)
             out["obligations"].append(rec)
         # canary / vacuity: on at least one normally-returning path `False` must NOT be provable,
